@@ -343,6 +343,7 @@ func laws(sel int, in, got []int64, law func(lsel int, lin []int64, sig string))
 		law(211, append(append([]int64{}, in...), got...), "")
 	case 3:
 		law(206, append(append([]int64{}, in...), got...), "")
+		law(212, append(append([]int64{}, in...), got...), "") // ties in spec order (fewer than 12 tasks)
 	case 4:
 		if !sameTokens(lastPG.in, in) {
 			panic("laws called without the matching run")
